@@ -163,8 +163,8 @@ def simStep (H : Bytes → Str) (reps : Array SimRep) (line : JVal) : Array SimR
           | .ok st' => finishD { p := st', stage := [], acache := { cap := cap } } (expectRes true)
           | .error _ => ((reps.set! r { rep with kv := kv, d := { acache := { cap := cap } } }), if res = S "err" then S "ok" else S "MISMATCH new: model fails, impl " ++ res)
         else if prim = S "reload" then
-          match PState.reload st v with
-          | .ok st' => finish st' (expectRes true)
+          match DState.reload rep.d v with
+          | .ok d' => finishD d' (expectRes true)
           | .error _ => finish st (expectRes false)
         else if prim = S "refresh" then
           match PState.refresh st v with
@@ -172,8 +172,8 @@ def simStep (H : Bytes → Str) (reps : Array SimRep) (line : JVal) : Array SimR
           | .error _ => finish st (expectRes false)
         else if prim = S "until" then
           let anchors := parseIds (((objGet (S "anchors") o).bind JVal.asArr?).getD [])
-          match PState.reloadUntil st v anchors with
-          | .ok st' => finish st' (expectRes true)
+          match DState.reloadUntil rep.d v anchors with
+          | .ok d' => finishD d' (expectRes true)
           | .error _ =>
             ((reps.set! r { rep with kv := kv }), if res = S "err" then S "ok-err" else S "MISMATCH until: model fails, impl " ++ res)
         else if prim = S "unstage" then finishD { rep.d with p := st.unstage, stage := [] } []
